@@ -2,9 +2,10 @@
 
 Decision-table enumeration: all 32 combinations of the report-request flags
 (reception, forwarding, delivery, deletion, status time) x report-to
-{dtn:none, a node} x 8 processing outcomes (deliver, forward, forward with
-fragmentation, delete by route, no matching route, security failure, forward
-without transmit route, duplicate).  Every administrative record the real
+{dtn:none, a node, a node with a clockless subject} x 10 processing outcomes
+(deliver, forward, forward with fragmentation, delete by route, no matching
+route, three kinds of security failure, forward without transmit route,
+duplicate).  Every administrative record the real
 agent hands to the convergence layer is decoded by the independent decoder and
 compared with a reference report generator.'''
 import itertools
@@ -29,6 +30,8 @@ OUTCOMES = {
     'delete-by-route': ('dtn://drop/app', {'receive', 'delete'}),
     'no-matching-route': ('xyz://nowhere/app', {'receive'}),
     'security-failure': ('dtn://node/secure', {'receive', 'delete'}),
+    'security-failure-bcb-context': ('dtn://node/secure', {'receive', 'delete'}),
+    'security-failure-bcb-undecodable': ('dtn://node/secure', {'receive', 'delete'}),
     'forward-without-tx-route': ('dtn://orphan/app', {'receive', 'delete'}),
     'duplicate': ('dtn://node/app', set()),
 }
@@ -40,13 +43,22 @@ def world_for(outcome):
     return BpWorld(dict(node_id=NODE, rx_routes=rx, tx_routes=tx))
 
 
-def bundle_for(outcome, flags, report_to, seq=1):
+def bundle_for(outcome, flags, report_to, seq=1, subject='clock'):
     dest = OUTCOMES[outcome][0]
     if outcome == 'no-matching-route':
         dest = 'ipn:77.1'
     pri = dict(flags=flags, crc_type=1, dest=dest, src='dtn://src/app', report_to=report_to,
                ts=(700000000000, seq), lifetime=3600000)
     blocks = [dict(type=1, num=1, flags=0, crc_type=1, data=bytes(range(200)) if outcome == 'forward-fragmented' else b'report-me')]
+    if subject == 'clockless':
+        # a source without a clock: creation time zero, told apart by the sequence number, with an age block
+        pri.update(ts=(0, 7 + seq))
+        blocks.insert(0, dict(type=B.T_AGE, num=3, flags=0, crc_type=0, data=B.enc_age(5000)))
+    if outcome == 'security-failure-bcb-context':
+        asb = dict(targets=[1], context=99, flags=0, source='dtn://src/', params=[], results=[[(1, b'xx')]])
+        blocks.insert(0, dict(type=B.T_BCB, num=2, flags=0, crc_type=0, data=B.enc_asb(asb)))
+    if outcome == 'security-failure-bcb-undecodable':
+        blocks.insert(0, dict(type=B.T_BCB, num=2, flags=0, crc_type=0, data=b'\x01\x02\x03'))
     if outcome == 'security-failure':
         # an integrity block whose security context is unknown to the receiver
         asb = dict(targets=[1], context=99, flags=0, source='dtn://src/', params=[], results=[[(1, b'xx')]])
@@ -54,7 +66,7 @@ def bundle_for(outcome, flags, report_to, seq=1):
     return dict(primary=pri, blocks=blocks)
 
 
-def check_case(outcome, flagbits, report_to):
+def check_case(outcome, flagbits, report_to, subject='clock'):
     flags = 0
     requested = set()
     for (i, name) in enumerate(ORDER):
@@ -65,9 +77,9 @@ def check_case(outcome, flagbits, report_to):
     if want_time:
         flags |= B.FLAG_STATUS_TIME
     world = world_for(outcome)
-    bundle = bundle_for(outcome, flags, report_to)
+    bundle = bundle_for(outcome, flags, report_to, subject=subject)
     data = B.encode(bundle)
-    label = dict(outcome=outcome, requested=sorted(requested), status_time=want_time, report_to=report_to)
+    label = dict(outcome=outcome, requested=sorted(requested), status_time=want_time, report_to=report_to, subject=subject)
     out = []
 
     def bad(kind, sig, detail):
@@ -167,17 +179,17 @@ def run_outcome(params, known):
     keys = set()
     count = 0
     samples = []
-    for report_to in ('dtn:none', 'dtn://rpt/x'):
+    for (report_to, subject) in (('dtn:none', 'clock'), ('dtn://rpt/x', 'clock'), ('dtn://rpt/x', 'clockless')):
         for flagbits in range(32):
             count += 1
-            (found, emitted) = check_case(outcome, flagbits, report_to)
+            (found, emitted) = check_case(outcome, flagbits, report_to, subject)
             for v in found:
                 key = (v['kind'], tuple(sorted(v['signature'].items())))
                 if key not in kinds:
                     kinds.add(key)
                     violations.append(v)
             if emitted:
-                keys.add('%s/%d/%s' % (outcome, flagbits, report_to))
+                keys.add('%s/%d/%s/%s' % (outcome, flagbits, report_to, subject))
                 if not samples:
                     samples.append(dict(outcome=outcome, flagbits=flagbits, report_to=report_to))
     kn, out_v = [], []
@@ -194,11 +206,12 @@ def scenarios(tier):
 
 ASSUMPTIONS = [
     'an absent report-to endpoint is encoded as dtn:none (RFC 9171 has no other way to omit it)',
-    'the eight outcomes are produced by routing tables / a BIB with an unknown security context / a route MTU of 120 octets',
+    'the ten outcomes are produced by routing tables / a BIB or BCB with an unknown security context / an undecodable BCB / a route MTU of 120 octets',
+    'subjects: a bundle with a creation time, and one from a clockless source (creation time 0, sequence number, age block)',
     'a report is required for deliver / forward / delete-by-route when a requested action occurred (the title says "exactly when requested"); for the other outcomes only reports that are emitted are judged',
 ]
 
-RULE = ('decision table of 32 flag combinations x 2 report-to values x 8 outcomes enumerated completely on a fresh real '
+RULE = ('decision table of 32 flag combinations x (no report-to, report-to, report-to with a clockless subject) x 10 outcomes enumerated completely on a fresh real '
         'agent each; every administrative record reaching the convergence layer is decoded independently and compared '
         'with the reference report; non-trivial = a report was emitted')
 
@@ -210,7 +223,7 @@ def evidence(tier, seed, scens, results, wall_s):
 def replay_case(body, verbose=False):
     case = body['case']
     label = case['label']
-    (found, emitted) = check_case(label['outcome'], case['flagbits'], label['report_to'])
+    (found, emitted) = check_case(label['outcome'], case['flagbits'], label['report_to'], label.get('subject', 'clock'))
     print('report emitted: %s' % emitted)
     for v in found:
         print(' observed %s %s: %s' % (v['kind'], v['signature'], v['detail'][:400]))
